@@ -85,6 +85,8 @@ def install():
                     if ins.opname.startswith('POP_JUMP') or ins.opname == 'FOR_ITER':
                         p = ins.positions
                         seg = _segment(src, (p.lineno, p.end_lineno, p.col_offset, p.end_col_offset))
+                        if ins.opname == 'FOR_ITER' and p.lineno != p.end_lineno:
+                            seg = src[p.lineno - 1][p.col_offset:].strip()          # the header line of the loop
                         k = (qn, seg, ins.opname)
                         seen[k] = seen.get(k, 0) + 1
                         branches[(c, ins.offset)] = [[qn, seg, ins.opname, seen[k], p.lineno], 0, 0, instrs[ii + 1].offset]
